@@ -379,7 +379,7 @@ pub fn decode(target: &str, data: &[u8]) -> Vec<(&'static str, Value)> {
                         table[j * n + i] = v;
                     }
                 }
-                vec![("C17", serde_json::to_value(c17::Case { method, sets, table, seed: u64::from(r.u32()), shift: [0.0f32, 0.5, 2.0][r.below(3)], iter_kind: r.u8() % 4, inf_pairs: (0..r.below(4)).map(|_| (r.u16(), r.u16())).collect(), inf_rate: if r.u8() % 4 == 0 { r.u8() } else { 0 }, inf_neg: r.u8() % 4 == 0 }).unwrap())]
+                vec![("C17", serde_json::to_value(c17::Case { method, sets, table, seed: u64::from(r.u32()), shift: [0.0f32, 0.5, 2.0][r.below(3)], iter_kind: r.u8() % 4, inf_pairs: (0..r.below(4)).map(|_| (r.u16(), r.u16())).collect(), inf_rate: if r.u8() % 4 == 0 { r.u8() } else { 0 }, inf_neg: r.u8() % 4 == 0, scale_exp: if r.u8() % 3 == 0 { (r.u8() % 61) as i8 - 30 } else { 0 } }).unwrap())]
             }
             _ => {
                 let all: Vec<u32> = if r.bool() { c06::leaf_ids() } else { c06::all_term_ids() };
